@@ -34,6 +34,10 @@ THEOREM_MODULES.append("Yarel.Props.CollectSites")
 REQUIRED_THEOREMS += ["collections_start_only_in_allocate_raw"]
 THEOREM_MODULES.append("Yarel.Props.FnsTie.Pacing")
 REQUIRED_THEOREMS += ['allocate_raw_tie', 'collect_if_required_tie', 'collect_tie', 'alloc_glued_is_model']
+# the three passes of a collection translated from memory.rs on every run (Props/FnsTie/GcPasses): they ARE the model's markRoots /
+# traceReferences / sweep (for every heap, colouring and bound), so "everything unmarked is freed and paid for" is about the code as read
+THEOREM_MODULES.append("Yarel.Props.FnsTie.GcPasses")
+REQUIRED_THEOREMS += ["sweep_tie", "sweep_keeps_exactly_black", "mark_roots_tie", "trace_references_tie", "collect_passes_are_the_model"]
 
 
 def census(stats):
